@@ -243,7 +243,7 @@ func (p *Parser) parse(path string, imported bool) (Program, error) {
 		h := sha256.New()
 		h.Write(source)
 
-		p.prefix = fmt.Sprintf("%x", h.Sum(nil))[0:7] // Only use the 7 first characters (inspired by Git).
+		p.prefix = fmt.Sprintf("h%x", h.Sum(nil))[0:8] // Only use the 7 first characters (inspired by Git). The leading letter makes the prefix a valid start of a shell variable name.
 	}
 	program, err := p.evaluateProgram()
 
